@@ -498,6 +498,15 @@ func (c *Client) completeCommand(cmd command, err error) {
 				PermanentFlags: cmd.data.PermanentFlags,
 			}
 			c.mutex.Unlock()
+		} else {
+			// A failed SELECT leaves no mailbox selected, see RFC 9051
+			// section 6.3.2
+			c.mutex.Lock()
+			if c.state == imap.ConnStateSelected {
+				c.state = imap.ConnStateAuthenticated
+				c.mailbox = nil
+			}
+			c.mutex.Unlock()
 		}
 	case *unselectCommand:
 		if err == nil {
